@@ -439,6 +439,45 @@ static void file_cases(vt::Rng& r, const string& dir, bool quick) {
     tr.nontrivial("file" + to_string(prev > (long)sz) + to_string(sz % 16384 == 0));
     prev = (long)sz;
   }
+  // read_all on REAL descriptors of regular files, also after part of the file was already consumed (readx / lseek) and
+  // at end of file: exactly the remaining bytes, nothing appended
+  for (size_t sz : vector<size_t>{1, 100, 16384, 16385, 40000}) {
+    string d = pattern(sz, sz + 3);
+    save_file(path, d);
+    for (size_t skip : vector<size_t>{0, 1, 16, sz / 2, sz - 1, sz}) {
+      if (skip > sz) continue;
+      int fd = ::open(path.c_str(), O_RDONLY);
+      if (fd < 0) continue;
+      bool via_seek = (skip + sz) % 2 == 0;
+      string ret, out = guarded([&] {
+        if (skip && via_seek) lseek(fd, (off_t)skip, SEEK_SET);
+        else if (skip) readx(fd, skip);
+        ret = read_all(fd);
+      });
+      __real_close(fd);
+      string expect = d.substr(skip);
+      vt::J j;
+      j.str("e", "ra").str("via", "regular").num("srclen", (long long)expect.size()).num("err", 0).str("out", out);
+      j.num("len", (long long)ret.size()).num("eq", ret == expect).num("delivered", (long long)expect.size()).raw("reqs", "[]").raw("plan", "[]");
+      tr.emit(j);
+      tr.nontrivial("raregular" + to_string(skip == 0) + to_string(skip == sz) + out);
+    }
+    // the FILE* form after part of the stream was consumed
+    FILE* f = fopen(path.c_str(), "rb");
+    if (f) {
+      size_t skip = sz / 3;
+      string ret, out = guarded([&] {
+        if (skip) freadx(f, skip);
+        ret = read_all(f);
+      });
+      fclose(f);
+      string expect = d.substr(skip);
+      vt::J j;
+      j.str("e", "ra").str("via", "regular").num("srclen", (long long)expect.size()).num("err", 0).str("out", out);
+      j.num("len", (long long)ret.size()).num("eq", ret == expect).num("delivered", (long long)expect.size()).raw("reqs", "[]").raw("plan", "[]");
+      tr.emit(j);
+    }
+  }
   ::unlink(path.c_str());
   // directory listing and recursive unlink on generated trees
   for (int t = 0; t < (quick ? 3 : 20); t++) {
